@@ -74,6 +74,9 @@ def stepOp (rw : Rune → Int) (v : SimVariant) (enc : Encoder) (s : Sim) (op : 
   | ["T"] => (s, some s!"t:{s.back.w},{s.back.h}")
   -- burst bracket (harness/engines/sim.go): the injections between A and E are made back to back while nobody polls;
   -- the model's event queue is unbounded and injection never fails, so the bracket changes nothing here
+  | ["OU", _] => (s, none)      -- another screen of the process changes its own fallback table
+  | ["OR", _, _] => (s, none)
+  | ["I2"] => (s, none)   -- the object finished and initialised again before the history: a fresh screen
   | ["A"] => (s, none)
   | ["E"] => (s, none)
   | _ => (s, some "bad-op")
